@@ -47,13 +47,29 @@ func c20Respelled(f c20Field) bool {
 // c20KnownPattern: decidable patterns of listed findings over the MINIMISED failing history ("" = none).
 // F20: the failure is at the second identical run and every field that survived minimisation is a respelled numeric default.
 func c20KnownPattern(sp c20Spec, o c20Outcome) string {
-	if o.Stage != "second" || len(sp.V1) == 0 {
+	fs := sp.V1
+	switch o.Stage {
+	case "second":
+	case "third": // the same re-alter, seen on the run after v2 was reached (the respelled default sits on a field added in v2)
+		fs = sp.V2
+	default:
 		return ""
 	}
-	for _, f := range sp.V1 {
+	if !strings.Contains(o.Verdict, "schema-changing statements") {
+		return ""
+	}
+	n := 0
+	for _, f := range fs {
+		if _, pk := c20TagGet(f.Tag, "primaryKey"); f.Tag == "" || (pk && !c20HasTag(f.Tag, "default")) {
+			continue // the key field minimisation cannot drop (a model needs one v1 field); MigrateColumn skips primary keys
+		}
 		if !c20Respelled(f) {
 			return ""
 		}
+		n++
+	}
+	if n == 0 {
+		return ""
 	}
 	return c20F20
 }
@@ -61,7 +77,7 @@ func c20KnownPattern(sp c20Spec, o c20Outcome) string {
 func init() {
 	// ---- end-to-end oracle: generated histories on SQLite -------------------------------------
 	register("C20", func(r *Result, rng *rand.Rand, tier string) {
-		n := 400
+		n := 1000
 		if tier == "thorough" {
 			n = 6000
 		} else if tier == "search" {
@@ -109,13 +125,13 @@ func init() {
 					r.H("e2e.v2.ddl", k)
 				}
 				if len(o.Third) > 0 {
-					r.H("e2e.third-run", "ddl-issued(observed, not judged)")
+					r.H("e2e.settle-run", "ddl-issued(late unique of a new field: observed)")
 					if probe {
 						b, _ := json.Marshal(sp)
 						r.Note("third run DDL: %s :: %s", strings.Join(o.Third, " ;; "), b)
 					}
 				} else {
-					r.H("e2e.third-run", "none")
+					r.H("e2e.settle-run", "none")
 				}
 			} else if probe && o.Verdict == "" {
 				b, _ := json.Marshal(sp)
